@@ -121,6 +121,8 @@ def main():
                 print("     " + v[:300])
     finally:
         sh(["git", "-C", "/repo", "checkout", "--", "."], "/")
+        # files a patch *added* are untracked: checkout does not remove them
+        sh(["git", "-C", "/repo", "clean", "-fdq", "--", "src"], "/")
         for pr_ in a.props.split(","):
             shutil.rmtree("/tmp/seed/_evidence_%s_%s" % (name, pr_), ignore_errors=True)
     meta["checks_run"] = a.props.split(",")
